@@ -257,7 +257,14 @@ def check(case, ignore_regions=False) -> Outcome:
         tr.observe("get_events_of_district", on_district)
         tr.observe("make_counterfactual_graph", lambda a, k, r: relabelled.append(r[1] is not None and set(r[1]) != set(a[1])))
         try:
-            est = id_star(graph, dict(event))
+            ev_obj = dict(event)
+            est = id_star(graph, ev_obj)
+            try:
+                again = id_star(graph, ev_obj)
+            except Exception as e2:  # noqa
+                again = e2
+            if isinstance(again, Exception) or again != est:
+                return fail("answer-changes-when-the-call-is-repeated-with-the-same-objects", first=str(est)[:400], second=repr(again)[:400])
         except Unidentifiable:
             labels.add("unidentifiable")
             out.labels = sorted(labels)
